@@ -249,6 +249,7 @@ type kept struct {
 	p    reflect.Value
 	buf  []byte
 	shown string
+	failed bool // the decode returned an error: `shown` is what it left in the destination
 }
 
 func (h *H) opDec(u *universe.UStruct, input []byte, dest reflect.Value, walk bool) (ok bool, n int, keep *kept) {
@@ -287,8 +288,11 @@ func (h *H) opDec(u *universe.UStruct, input []byte, dest reflect.Value, walk bo
 		h.emit(line + " -> " + res)
 		if strings.HasPrefix(res, "panic") {
 			h.oracle("C05", fmt.Sprintf("DecodeObject panicked (%s) sid=%d in=%s", res, u.Sid, hexOrDash(orig)))
+			return false, n, nil
 		}
-		return false, n, nil
+		// what a failed decode left in the destination is still the caller's: later decodes must not
+		// change it either (memory handed out by the failed call must not be handed out again)
+		return false, n, &kept{u: u, p: dest, buf: buf, shown: showDecoded(dest.Elem(), buf), failed: true}
 	}
 	shown := showDecoded(dest.Elem(), buf)
 	h.emit(line + " -> ok " + strconv.Itoa(n) + " " + shown)
@@ -297,7 +301,7 @@ func (h *H) opDec(u *universe.UStruct, input []byte, dest reflect.Value, walk bo
 			h.oracle("C06", fmt.Sprintf("%s sid=%d in=%s", msg, u.Sid, hexOrDash(orig)))
 		}
 	}
-	return true, n, &kept{u, dest, buf, shown}
+	return true, n, &kept{u: u, p: dest, buf: buf, shown: shown}
 }
 
 // decRaw: one decode into a fresh destination, nothing rendered or recorded
@@ -334,7 +338,11 @@ func (h *H) checkKept(ks []*kept) {
 	for _, k := range ks {
 		now := showDecoded(k.p.Elem(), k.buf)
 		if now != k.shown {
-			h.oracle("C06", fmt.Sprintf("decoded value changed after later decodes/GC sid=%d was=%s now=%s", k.u.Sid, clip(k.shown), clip(now)))
+			if k.failed {
+				h.oracle("C07", fmt.Sprintf("the destination of a failed DecodeObject changed after later decodes/GC (memory of the failed call handed out again) sid=%d was=%s now=%s", k.u.Sid, clip(k.shown), clip(now)))
+			} else {
+				h.oracle("C06", fmt.Sprintf("decoded value changed after later decodes/GC sid=%d was=%s now=%s", k.u.Sid, clip(k.shown), clip(now)))
+			}
 		}
 	}
 	for _, k := range ks {
